@@ -192,7 +192,7 @@ func C07(c *core.Ctx) {
 			}
 		})
 	}
-	for _, st := range allStatuses {
+	for _, st := range append(append([]string{}, allStatuses...), world.AbsentStatus) {
 		st := st
 		run("level-status", "single applicable level "+st, nil, func(w *world.World, d *world.QeIdentityDoc) {
 			d.Levels = []world.TcbLevel{{Tcb: world.Tcb{ModuleLevel: true, IsvSvn: uint32(w.Fields.QeIsvSvn)}, Date: "2025-01-01T00:00:00Z", Status: st}}
